@@ -43,8 +43,8 @@ LEVEL_NOTE = ('The frame and generator theorems are only as good as the aliasing
               'are what the history correspondence observes on every run (a write or an alias the model does not '
               'predict is a violation with the history as replay). Values are opaque kernels in the model; value-level '
               'history independence of the code is decided by the oracle (repeat / fresh process), not by the proof. '
-              'fit_tilt(inplace=True) on a monolithic plane writes through to the OPD array the caller handed to the '
-              'constructor (documented in-place on the plane; the model says so).')
+              'fit_tilt(inplace=True) rebinds plane.opd to a new array (documented change of the plane); it does not write '
+              'the OPD array the caller handed to the constructor - a write-through would be an undocumented write.')
 TRUSTED = ['Coq 8.16.1 kernel (coqc; coqchk in the thorough tier)',
            'extraction with ExtrOcamlBasic only; ocaml/driver.ml',
            'harness/props/c10.py: history generator, snapshotting, buffer identity (np.shares_memory), rebuild of '
@@ -383,14 +383,11 @@ class Gen:
             ty = dict(self.regs[p])
             changes = self.fit_changes(p)
             opd = self.regs[p]['opd']
-            ro = bool(inplace and changes and self.regs[p]['nseg'] == 1 and opd is not None and opd >= 0
-                      and self.regs[opd]['frozen'])
             if inplace:
-                if changes and not ro:
+                if changes:
                     self.regs[p]['tilt'] = True
-                    if self.regs[p]['nseg'] > 1:
-                        self.regs[p]['opd'] = -1      # rebound to a fresh array
-                self.emit({'f': 'fit_tilt', 'p': p, 'inplace': True}, {'t': 'N'} if ro else {'t': 'alias', 'of': p})
+                    self.regs[p]['opd'] = -1      # plane.opd is rebound to a fresh (writable) array
+                self.emit({'f': 'fit_tilt', 'p': p, 'inplace': True}, {'t': 'alias', 'of': p})
             else:
                 if ty['cls'] == 'Image':
                     self.emit({'f': 'fit_tilt', 'p': p, 'inplace': False}, {'t': 'alias', 'of': p})
@@ -654,12 +651,9 @@ def gen_plane_updates(rng):
             if r is not None and r >= 0 and not g.regs[r]['frozen']:
                 g.poke(r)
         elif x < 0.8:
-            opd_r = t['opd']
-            if t['nseg'] > 1 or not (opd_r is not None and opd_r >= 0 and g.regs[opd_r]['frozen']):
-                g.emit({'f': 'fit_tilt', 'p': p, 'inplace': True}, {'t': 'alias', 'of': p})
-                t['tilt'] = True
-                if t['nseg'] > 1:
-                    t['opd'] = -1
+            g.emit({'f': 'fit_tilt', 'p': p, 'inplace': True}, {'t': 'alias', 'of': p})
+            t['tilt'] = True
+            t['opd'] = -1
         elif x < 0.9:
             ty = dict(t)
             ty['opd'] = -1
@@ -694,8 +688,7 @@ def gen_tilt_reuse(rng):
     if rng.random() < 0.7:
         g.emit({'f': 'fit_tilt', 'p': p, 'inplace': True}, {'t': 'alias', 'of': p})
         g.regs[p]['tilt'] = True
-        if seg:
-            g.regs[p]['opd'] = -1
+        g.regs[p]['opd'] = -1
     ws = [w]
     if rng.random() < 0.3:
         ws.append(g.mul_tilt(w))
@@ -760,6 +753,7 @@ def gen_memo(rng, kind=None):
                 g.poke(rng.choice([amp, opd]))
             elif x < 0.8:
                 g.emit({'f': 'fit_tilt', 'p': p, 'inplace': True}, {'t': 'alias', 'of': p})
+                g.regs[p]['opd'] = -1
             else:
                 q = g.emit({'f': 'copy', 'p': p}, {'t': 'P', 'cls': 'Pupil', 'nseg': 1, 'opd': -1, 'amp': -1, 'mfloat': True,
                                                    'tilt': False, 'arrmask': True})
@@ -1606,8 +1600,7 @@ def run_hist(c):
         elif f == 'poke_attr':
             doc_bufs = [tr.buf_of([args['p'].amplitude, args['p'].opd, args['p'].mask][s['attr']])[0]]
         elif f == 'fit_tilt' and s['inplace']:
-            doc_bufs = [tr.buf_of(args['p'].opd)[0]]
-            doc_objs = [tr.obj_of(args['p'])[0]]
+            doc_objs = [tr.obj_of(args['p'])[0]]      # the plane (its opd attribute and tilt list); no caller ARRAY is written
         elif f == 'insert':
             doc_bufs = [tr.buf_of(args['out'])[0]]
         elif f == 'dft2' and 'out' in args:
